@@ -125,7 +125,7 @@ class Pred:
         self.var, self.op, self.c, self.neg = var, op, c, neg
 
     def __repr__(self):
-        return "%s(%s %s %d)" % ("!" if self.neg else "", self.var, self.op, self.c)
+        return "%s(%s %s %s)" % ("!" if self.neg else "", self.var, self.op, self.c)
 
 
 class Enum:
@@ -411,6 +411,19 @@ def _needs_conv(gargs):
     return not (m1 and m2 and m1.group(1) == m2.group(1))
 
 
+def _range_contains(it, fn, args, dty, sg, cons, excl, depth):
+    rng = args[0].v if isinstance(args[0], Ref) else args[0]
+    item = args[1].v if isinstance(args[1], Ref) else args[1]
+    if isinstance(rng, Enum) and isinstance(item, BV) and rng.fields["start"].is_const() and rng.fields["end"].is_const():
+        lo, hi = rng.fields["start"].value(), rng.fields["end"].value()
+        if item.is_const():
+            return [(sg, cons, excl, BV.const(1, False, 1 if lo <= item.value() <= hi else 0))]
+        name = item.whole_var()
+        if name:
+            return [(sg, cons, excl, Pred(name, "In", (lo, hi)))]
+    raise LeaveDomain("contains on %r, %r" % (rng, item))
+
+
 def _call_once(it, fn, args, dty, sg, cons, excl, depth):
     f = args[0]
     tup = args[1]
@@ -423,6 +436,7 @@ PLUMBING = {
     "std::result::Result::<T, E>::and_then": _and_then,
     "std::ops::Try::branch": _branch,
     "std::ops::FromResidual::from_residual": _from_residual,
+    "std::ops::RangeInclusive::<Idx>::contains": _range_contains,
     "std::ops::FnOnce::call_once": _call_once,
     "std::ops::FnMut::call_mut": _call_once,
     "std::ops::Fn::call": _call_once,
@@ -514,6 +528,14 @@ class Interp:
             return BV.const(1, False, int(k["bits"]))
         if k["ty"] == "()":
             return Tup([])
+        m = re.match(r"^&?std::ops::RangeInclusive<(u8|u16|u32|u64|usize)>$", k["ty"])
+        if m and k.get("alloc"):
+            w = {"u8": 1, "u16": 2, "u32": 4, "u64": 8, "usize": 8}[m.group(1)]
+            raw = bytes.fromhex(k["alloc"])
+            lo = int.from_bytes(raw[0:w], "little")
+            hi = int.from_bytes(raw[w:2 * w], "little")
+            v = Enum("std::ops::RangeInclusive", "RangeInclusive", {"start": BV.const(8 * w, False, lo), "end": BV.const(8 * w, False, hi)})
+            return Ref(v) if k["ty"].startswith("&") else v
         return Opaque("const %s" % (k.get("ev") or k.get("s")))
 
     def adt_info(self, path):
